@@ -338,7 +338,32 @@ Inductive step :=
 | SAcc (ri : nat) (chain : list dop) (o : sop)      (* derive an accessor from region ri, use it *)
 | SGuest (o : gop)
 | SReset (ri : nat)                                  (* AtomicBitmap::reset *)
-| SResetRange (ri : nat) (off len : N).              (* reset_addr_range *)
+| SResetRange (ri : nat) (off len : N)               (* reset_addr_range *)
+| SCopy (ri : nat) (chain : list dop) (rj : nat) (doff dlen : N).
+    (* slice-to-slice copy: the accessor derived from region ri (a slice or an element array) is copied
+       with copy_to_volatile_slice into region rj's get_slice(doff, dlen)
+       VolatileSlice::copy_to_volatile_slice volatile_memory.rs:605-615,
+       VolatileArrayRef::copy_to_volatile_slice :1234-1244:
+       count = min(source bytes, slice.size); copy(..); slice.bitmap.mark_dirty(0, count) - on the DESTINATION *)
+
+Definition ranges_overlap (o1 n1 o2 n2 : N) : bool :=
+  (0 <? n1) && (0 <? n2) && (o1 <? o2 + n2) && (o2 <? o1 + n1).
+
+(* Source and destination inside one region that overlap are not exercised here (both sides answer
+   "not done"): the bytes the copy leaves there are C04's subject and the harness cannot tell a copied
+   byte from the source byte it overwrites. *)
+Definition run_copy (rs : list region) (ri : nat) (ch : list dop) (rj : nat) (doff dlen : N) : outcome1 :=
+  match nth_error rs ri, nth_error rs rj with
+  | Some r, Some r2 =>
+      match derive_chain (root r) ch, d_sub (root r2) doff dlen KSlice with
+      | Some a, Some d =>
+          match a_kind a with
+          | KRef => fail
+          | _ => if Nat.eqb ri rj && ranges_overlap (a_off a) (a_len a) (a_off d) (a_len d) then fail
+                 else let n := N.min (a_len a) (a_len d) in done n [weff rj d 0 n]
+          end
+      | _, _ => fail end
+  | _, _ => fail end.
 
 Definition run_step (hostmod : N) (rs : list region) (s : step) : list region * outcome1 :=
   match s with
@@ -355,4 +380,6 @@ Definition run_step (hostmod : N) (rs : list region) (s : step) : list region * 
   | SReset ri => (upd_nth rs ri (fun r => set_dirty r (map (fun _ => false) (r_dirty r))), done 0 [])
   | SResetRange ri off len =>
       (upd_nth rs ri (fun r => set_dirty r (mark (r_ps r) (r_dirty r) off len false)), done 0 [])
+  | SCopy ri ch rj doff dlen =>
+      let out := run_copy rs ri ch rj doff dlen in (apply_effs rs (o_effs out), out)
   end.
